@@ -81,6 +81,10 @@ func drawWorlds(x *runner.X, n int, withGsfa bool, small bool, allowSplitTx bool
 		if allowSplitTx && !withGsfa && t.Bool(0.2) {
 			p.SplitTxData = true
 		}
+		if !small && t.Bool(0.04) {
+			p.HugeRewards = true // an epoch-boundary-sized rewards list: > 1 MiB before compression
+			x.Probe("world.huge_rewards")
+		}
 		r := t.SubRand()
 		w := world.Generate(tapeRng{r}, p)
 		dir := filepath.Join(x.TempDir(), fmt.Sprintf("epoch-%d", e))
